@@ -351,7 +351,7 @@ def fam_read_out(bits, tier):
         fmt = rw[-1]
         ins = inputs_for(fmt, tier)
         if tier == "quick":
-            ins = ins[::2] + ins[-1:]
+            ins = ins[::3] + ins[-1:]
         for dt in OUT_DTYPES:
             for data in ins:
                 inp = [("x", data)]
@@ -533,7 +533,7 @@ def configs_for(family, tier, prog_has_outputs):
     if tier == "thorough":
         return [(s, 1024, o[0], o[1]) for s in (1024, 2) for o in CONFIG_OUT] + [(1, 2, 2, 1.5), (1024, 1, 1, 1.0001)]
     cfgs = [(1024, 1024, o[0], o[1]) for o in CONFIG_OUT]
-    cfgs += [(2, 1024, 1, 1.0001), (1, 2, 2, 1.5)]
+    cfgs += [(1, 2, 2, 1.5)] if family == "read_out" else [(2, 1024, 1, 1.0001), (1, 2, 2, 1.5)]
     return cfgs
 
 
